@@ -75,6 +75,11 @@ def run(ctx):
     # the repository's own suite: the scans it makes of its resource projects, validated by the same specification
     str_, sepisodes, sfails, smeta = sc.validate_suite_scans()
     fails = fails + sfails
+    # the construction of the architecture with the limit applied while building, as an algorithm (Graph.tla):
+    # in every processing order the limited build is the quotient of the unlimited one
+    from harness.checks import graph_common as gc
+    gfails, gmeta, gmc, gtr = gc.run_all(ctx, 909)
+    fails = fails + gfails
     st = sc.stats(episodes)
     flips = 0
     for ep in episodes:
@@ -86,7 +91,7 @@ def run(ctx):
     fail_verdicts = sum(1 for ep in episodes for e in ep if e["k"] == "seval" and e["out"] == "fail")
     if not st["law_instances"].get("quotient") or not st["law_instances"].get("verdict") or not fail_verdicts:
         raise tlc.MachineryError(f"vacuous run: {st}")
-    cov = {"real_source_trees": wtrees, "repository_suite_scans_validated": smeta.get("scans", 0), "repository_suite_scans_skipped": smeta.get("skipped", {}), "states": mc.distinct + tr.states, "transitions": mc.generated + tr.transitions,
+    cov = {**gmeta, "real_source_trees": wtrees, "repository_suite_scans_validated": smeta.get("scans", 0), "repository_suite_scans_skipped": smeta.get("skipped", {}), "states": mc.distinct + tr.states + gmc.distinct + gtr.states, "transitions": mc.generated + tr.transitions + gmc.generated + gtr.transitions,
            "model_states": mc.distinct, "model_transitions": mc.generated,
            "traces_validated_against_impl": len(episodes), "trace_events": tr.events,
            "limited_scans": shrunk, "failing_verdicts_compared": fail_verdicts, "random_projects": n_rand, **st,
